@@ -261,6 +261,38 @@ def _alpha(text: str, local_names) -> str:
         return text
 
 
+def _raise_signature(text: str):
+    """(exception type, the long literal pieces of its message) of a `raise X(<message>)` statement; None for anything else.
+    How the message interpolates its values (f-string, .format, a helper) is not part of the identity of a raise."""
+    try:
+        st = ast.parse(text).body[0]
+    except Exception:
+        return None
+    if not isinstance(st, ast.Raise) or not isinstance(st.exc, ast.Call) or not st.exc.args:
+        return None
+    m = st.exc.args[0]
+    if isinstance(m, ast.Call) and isinstance(m.func, ast.Attribute) and m.func.attr == "format":
+        m = m.func.value
+    pieces = []
+    if isinstance(m, ast.Constant) and isinstance(m.value, str):
+        import re as _re
+
+        pieces = [x for x in _re.split(r"\{[^{}]*\}", m.value)]
+    elif isinstance(m, ast.JoinedStr):
+        pieces = [v.value for v in m.values if isinstance(v, ast.Constant) and isinstance(v.value, str)]
+    else:
+        return None
+    longp = tuple(x.strip() for x in pieces if len(x.strip()) >= 12)
+    if not longp:
+        return None
+    return (ast.unparse(st.exc.func), longp)
+
+
+def _same_raise(a: str, b: str) -> bool:
+    sa_, sb_ = _raise_signature(a), _raise_signature(b)
+    return sa_ is not None and sa_ == sb_
+
+
 _MOVED: Dict[str, str] = {}
 
 
@@ -288,7 +320,7 @@ def lookup_discharge(entry: str, fn: str, text: str, exc: str, kind: str = "", l
         elif d["text"] != text:
             if atext is None:
                 atext = _alpha(text, local_names)
-            if _alpha(d["text"], local_names) != atext:
+            if _alpha(d["text"], local_names) != atext and not _same_raise(d["text"], text):
                 continue
         if d.get("exc") not in (None, "*", exc):
             continue
